@@ -9,13 +9,13 @@ HOOKS = {
 }
 
 ENGINES = [
-    {'name': 'E1 kani-step', 'path': '/verif/kani', 'serves_properties': ['C01', 'C02', 'C03', 'C04', 'C05', 'C07', 'C10', 'C11', 'C12', 'C13', 'C16', 'C18', 'C19'],
-     'kind_free_text': 'Kani 0.68 / CBMC 6.11 bounded model checking of the real planner/executor functions from symbolic pre-states of concrete shape; counterexamples extracted with concrete playback and replayed natively (/verif/replay) on the real dependency set'},
-    {'name': 'E2 mir-smt', 'path': '/verif/mir', 'serves_properties': ['C01', 'C02', 'C03', 'C04', 'C05', 'C06', 'C07', 'C08', 'C09', 'C11', 'C12', 'C13', 'C16', 'C17', 'C18', 'C19', 'C20'],
+    {'name': 'E1 kani-step', 'path': '/verif/kani', 'serves_properties': ['C01', 'C02', 'C03', 'C04', 'C05', 'C06', 'C07', 'C08', 'C09', 'C10', 'C11', 'C12', 'C13', 'C16', 'C18', 'C19'],
+     'kind_free_text': 'Kani 0.68 / CBMC 6.11 bounded model checking of the real planner/executor functions from symbolic pre-states of concrete shape, and of the real World / SystemData API on an association-list model of the resource map; counterexamples extracted with concrete playback and replayed natively (/verif/replay) on the real dependency set'},
+    {'name': 'E2 mir-smt', 'path': '/verif/mir', 'serves_properties': ['C01', 'C02', 'C03', 'C04', 'C05', 'C06', 'C07', 'C08', 'C09', 'C10', 'C11', 'C12', 'C13', 'C15', 'C16', 'C17', 'C18', 'C19', 'C20'],
      'kind_free_text': 'symbolic execution of the nightly MIR dump of the current tree into SMT (z3, cvc5 cross-check) for loop-free generic glue code, parametric in the type parameters'},
 ]
 
-KANI_NOTE = ('Trusted: Kani/CBMC/CaDiCaL; Vec-backed contract models of smallvec/arrayvec and the sequential rayon contract model under Kani '
+KANI_NOTE = ('Trusted: Kani/CBMC/CaDiCaL; Vec-backed contract models of smallvec/arrayvec, an association-list contract model of ahash::AHashMap and the sequential rayon contract model under Kani '
              '(counterexamples are replayed on the real crates); representation invariant of the pre-state as listed in the evidence file. '
              'Bounded: only the listed shapes/resources/dependency patterns; unwinding assertions on.')
 
@@ -26,6 +26,7 @@ BOTH_NOTE = KANI_NOTE + ' ' + MIR_NOTE
 STEP_T = 'bounded model checking (Kani/CBMC) of one inductive planner step from a symbolic pre-state'
 EXEC_T = 'bounded model checking (Kani/CBMC) of the real executor on concrete layouts against a nondeterministic rayon contract model'
 MIR_T = 'symbolic execution of the MIR into SMT (z3, cvc5 cross-check)'
+WORLD_T = 'bounded model checking (Kani/CBMC) of the real World API (real atomic_refcell cells, association-list model of the map)'
 
 
 def chk(engine, cat, ref, tech, text, note):
@@ -43,7 +44,7 @@ CHECKS = {
                'Executor harness: on every listed layout (incl. a full group of 5, three stages, thread-local systems, a batch with 0/1/2 inner dispatches) every system runs exactly once per dispatch call of every kind, for two successive calls; the rayon contract (each job once) is the stated assumption. Commit harness: one insert adds exactly one id and one boxed system to the same slot. E2: the fan-out functions are "one call per item, nothing else" for 0..3 items, MultiDispatcher::run dispatches exactly plan() times.', BOTH_NOTE),
     'C05': chk('E1 kani-exec', 'model_checking', 'DESIGN.md §4 C05', EXEC_T + '; ' + STEP_T + '; ' + MIR_T,
                'REDUCED claim: on the same built dispatcher the partial order induced by dispatch_par under the rayon contract and the total order of dispatch_seq agree on every pair that is not "same region, different job", and those pairs are the non-conflicting ones by C01. The isolation premise is re-checked (planner step fleet, commit part of insert); without `parallel`, dispatch is dispatch_seq and the placement code is byte-identical. Not decided: commutation of non-conflicting steps on the real World under real interleavings.', BOTH_NOTE),
-    'C06': chk('E2 mir-smt', 'other', 'DESIGN.md §4 C06', MIR_T,
+    'C06': chk('E2 mir-smt', 'other', 'DESIGN.md §4 C06', MIR_T + '; %s: borrow state after fetch = declared access' % WORLD_T,
                'For all 26 tuple impls x setup/fetch/reads/writes, Read/Write/Option forms, unit, PhantomData, StaticAccessor, the blanket DynamicSystemData, the setup handlers and 7 derive samples (named, tuple, extra lifetimes, generics+where, nesting 3): reads/writes are exactly the concatenation of the members\' (z3 sequence equality), fetch/setup call every member exactly once on the caller\'s world and store member i at field i; leaves borrow exactly the cell of T shared resp. exclusive. Parametric in the member types: holds for every composition.', MIR_NOTE),
     'C07': chk('E2 mir-smt', 'other', 'DESIGN.md §4 C07', MIR_T,
                'add_batch: on its single path the accessor\'s reads are fetch_all_reads(inner) ++ controller reads, writes likewise (z3 sequence equality), only sort/dedup touch them, the wrapper is created from that accessor and the inner dispatcher built from the inner builder and registered through the ordinary add; the wrapper reports exactly that accessor and fetches nothing. Depth follows because a nested batch is an ordinary system of the inner builder.', MIR_NOTE),
@@ -60,10 +61,13 @@ CHECKS = {
 }
 
 CHECKS.update({
-    'C08': chk('E2 mir-smt', 'other', 'DESIGN.md §4 C08', MIR_T,
+    'C08': chk('E2 mir-smt', 'other', 'DESIGN.md §4 C08', MIR_T + '; ' + WORLD_T,
                'REDUCED claim (access-path logic): for try_fetch / try_fetch_mut the solver enumerates exactly three outcomes - lookup absent -> None, try_borrow(_mut) Err -> panic, Ok -> a guard that owns exactly that borrow of the cell looked up under ResourceId::new::<T>(), shared resp. exclusive; the by-id forms check the type id first, look up under that id, and on a present resource take the panicking borrow()/borrow_mut(); fetch/fetch_mut panic when absent; Fetch::clone is one more shared borrow; the guards have no Drop impl of their own; the meta iterators borrow through the cell. The shared-xor-exclusive state machine itself is atomic_refcell\'s (assumed).', MIR_NOTE),
-    'C09': chk('E2 mir-smt', 'other', 'DESIGN.md §4 C09', MIR_T,
+    'C09': chk('E2 mir-smt', 'other', 'DESIGN.md §4 C09', MIR_T + '; ' + WORLD_T,
                'REDUCED claim: assert_same_type_id returns iff the type id of R equals the type id of the id passed (two outcomes, no other branch); insert_by_id / remove_by_id / try_fetch(_mut)_by_id call it first and access the map under that very id, so a mismatching call panics before the world is touched; insert/remove/has_value/entry/get_mut use ResourceId::new of their own type argument, so a value of type R only ever sits under R\'s id (precondition of the unchecked downcasts). Map laws are std HashMap\'s (assumed).', MIR_NOTE),
+    'C15': chk('E2 mir-smt', 'other', 'DESIGN.md §4 C15 / §5', MIR_T,
+               'REDUCED claim (hand-over protocol, not interleavings): the world and the stages are either in the dispatcher (Data::Inner) or owned by exactly one spawned job (Data::Rx); the job runs every stage exactly once in order on that world and sends the state back afterwards on every path; dispatch, wait, wait_without_tl, world, world_mut, res, mut_res and setup all start with Data::inner / Data::sender, which block on Receiver::recv until the state is back (so a second dispatch cannot start before the first is complete, and what these calls return is observed after every background system finished); running() uses only the non-blocking poll, which answers "here" exactly when the state is here or try_recv delivered it; thread-local systems run only in wait, on the caller, after the state is back. The happens-before itself is the documented contract of std::sync::mpsc and ThreadPool::spawn (assumption).',
+               MIR_NOTE + ' The cross-thread ordering is NOT explored: it follows from the protocol facts above under the std::sync::mpsc contract.'),
     'C16': chk('E2 mir-smt', 'other', 'DESIGN.md §4 C16', MIR_T + '; bounded model checking (Kani/CBMC) of Par::with and of a tree run',
                'For all H, T (uninterpreted): Seq::run = head.run then tail.run; Par::run = exactly one join of (head job, tail job) (pool.join from outside the pool, plain join inside), each job runs its child once on the same world and pool; reads/writes/setup of both node kinds reach head then tail; with()/new() keep every child; leaves forward to the accessor and run_now. By structural induction: every tree shape. Par::with in a debug-assertions build (separate MIR dump): returns iff none of node-W/child-R, node-W/child-W, node-R/child-W intersects, panics otherwise. E1 (Kani): Par::with with symbolic leaf access sets panics iff the new child conflicts (two harness families), and a seq/par tree runs every leaf once in seq order with par children in distinct jobs on the rayon contract model.', BOTH_NOTE),
     'C17': chk('E2 mir-smt', 'other', 'DESIGN.md §4 C17', MIR_T,
@@ -78,7 +82,6 @@ UNDER_CONSTRUCTION = 'check under construction in this session; not claimed yet'
 NOT_APPLICABLE = {}
 NOT_APPLICABLE.update({
     'C14': 'needs unwinding semantics (catch_unwind, drop during unwind, rayon panic propagation); Kani/CBMC end a path at a panic and the MIR route would need std/rayon unwinding encoded - solver-based checking of the real code cannot reach it here',
-    'C15': 'needs real threads, ThreadPool::spawn and blocking std::sync::mpsc receive; Kani has no thread model and a sequential stand-in would verify the stand-in, not shred',
 })
 
 NOTES = ('All checks: python3-vt run_check.py <id> quick|thorough. Exit 0 = held, 1 = VIOLATION line(s) (solver counterexample that replays natively), '
